@@ -476,3 +476,490 @@ Proof.
   unfold load, load_with. unfold mig_root at 1. cbn [andb].
   rewrite check_root_mig, root_null_sub_mig. reflexivity.
 Qed.
+
+(* ------------------------------------------------------------------ leaves *)
+Fixpoint flat_entries (m : list (str * yv)) : list (path * yv) :=
+  match m with
+  | [] => []
+  | (k, x) :: t => map (pre (SK k)) (flatten x) ++ flat_entries t
+  end.
+Fixpoint flat_items (n : nat) (l : list yv) : list (path * yv) :=
+  match l with
+  | [] => []
+  | x :: t => map (pre (SI n)) (flatten x) ++ flat_items (S n) t
+  end.
+
+Lemma flatten_map m :
+  flatten (YMap m) = match m with [] => [([], YMap [])] | _ => flat_entries m end.
+Proof.
+  destruct m as [|e m]; [reflexivity|].
+  change (flatten (YMap (e :: m))) with
+    ((fix go (m : list (str * yv)) : list (path * yv) :=
+        match m with
+        | [] => []
+        | (k, x) :: t => map (pre (SK k)) (flatten x) ++ go t
+        end) (e :: m)).
+  generalize (e :: m) as l. intros l.
+  set (go := fix go (m : list (str * yv)) : list (path * yv) :=
+        match m with
+        | [] => []
+        | (k, x) :: t => map (pre (SK k)) (flatten x) ++ go t
+        end).
+  induction l as [|[k x] t IH]; [reflexivity|].
+  change (go ((k, x) :: t)) with (map (pre (SK k)) (flatten x) ++ go t).
+  rewrite IH. reflexivity.
+Qed.
+
+Lemma flatten_list l :
+  flatten (YList l) = match l with [] => [([], YList [])] | _ => flat_items 0 l end.
+Proof.
+  destruct l as [|e l]; [reflexivity|].
+  change (flatten (YList (e :: l))) with
+    ((fix go (n : nat) (l : list yv) : list (path * yv) :=
+        match l with
+        | [] => []
+        | x :: t => map (pre (SI n)) (flatten x) ++ go (S n) t
+        end) 0 (e :: l)).
+  generalize (e :: l) as l'. generalize 0 as n. intros n l'. revert n.
+  set (go := fix go (n : nat) (l : list yv) : list (path * yv) :=
+        match l with
+        | [] => []
+        | x :: t => map (pre (SI n)) (flatten x) ++ go (S n) t
+        end).
+  induction l' as [|x t IH]; intros n; [reflexivity|].
+  change (go n (x :: t)) with (map (pre (SI n)) (flatten x) ++ go (S n) t).
+  rewrite IH. reflexivity.
+Qed.
+
+Lemma in_pre s p v l : In (p, v) (map (pre s) l) -> exists p', p = s :: p' /\ In (p', v) l.
+Proof.
+  intros H. apply in_map_iff in H as [[p' v'] [E Hin]]. unfold pre in E; simpl in E.
+  injection E as <- <-. eauto.
+Qed.
+
+Lemma in_flat_entries p v m :
+  In (p, v) (flat_entries m) ->
+  exists k x p', In (k, x) m /\ p = SK k :: p' /\ In (p', v) (flatten x).
+Proof.
+  induction m as [|[k x] t IH]; simpl; [tauto|]. intros H. apply in_app_or in H as [H|H].
+  - apply in_pre in H as [p' [-> Hin]]. exists k, x, p'. auto.
+  - destruct (IH H) as (k' & x' & p' & Hin & -> & Hf). exists k', x', p'. auto.
+Qed.
+
+Lemma in_flat_items p v n l :
+  In (p, v) (flat_items n l) ->
+  exists i x p', nth_error l i = Some x /\ p = SI (n + i) :: p' /\ In (p', v) (flatten x).
+Proof.
+  revert n; induction l as [|x t IH]; intros n; simpl; [tauto|]. intros H.
+  apply in_app_or in H as [H|H].
+  - apply in_pre in H as [p' [-> Hin]]. exists 0, x, p'. rewrite Nat.add_0_r. auto.
+  - destruct (IH _ H) as (i & x' & p' & Hn & -> & Hf). exists (S i), x', p'.
+    rewrite Nat.add_succ_r. auto.
+Qed.
+
+Lemma in_flatten_map p v m :
+  In (p, v) (flatten (YMap m)) -> is_scalar v = true ->
+  exists k x p', In (k, x) m /\ p = SK k :: p' /\ In (p', v) (flatten x).
+Proof.
+  rewrite flatten_map. destruct m as [|e m].
+  - intros [H|[]] Hs. injection H as <- <-. discriminate.
+  - intros H _. apply in_flat_entries; exact H.
+Qed.
+
+Lemma in_flatten_list p v l :
+  In (p, v) (flatten (YList l)) -> is_scalar v = true ->
+  exists i x p', nth_error l i = Some x /\ p = SI i :: p' /\ In (p', v) (flatten x).
+Proof.
+  rewrite flatten_list. destruct l as [|e l].
+  - intros [H|[]] Hs. injection H as <- <-. discriminate.
+  - intros H _. apply in_flat_items in H. exact H.
+Qed.
+
+(* [rel] (relative to the level's node) and [v] are the image of a v2 value of that level *)
+Definition img (c : v2config) (rel : path) (v : yv) : Prop :=
+  exists k val sub, v2_val c k = Some val /\ rel = place k ++ sub /\ In (sub, v) (flatten val).
+
+Ltac scalar_img K E :=
+  right; exists K; eexists; exists [];
+  split; [cbn [v2_val]; rewrite E; reflexivity |
+  split; [reflexivity | left; reflexivity]].
+
+Lemma cfg_entry_leaf c tpl k x p' v :
+  In (k, x) (mig_config c tpl) -> In (p', v) (flatten x) -> is_scalar v = true ->
+  (exists s, tpl = Some s /\ k = B "template" /\ p' = [] /\ v = YStr s) \/ img c (SK k :: p') v.
+Proof.
+  intros Hin Hf Hs. apply in_collapse in Hin. unfold cfg_entries in Hin. cbn [In] in Hin.
+  repeat (destruct Hin as [Hin|Hin]; [injection Hin as <- Hv | ]); try contradiction; try discriminate.
+  - destruct (v_all c) eqn:E; [injection Hv as <- | discriminate].
+    destruct Hf as [Hf|[]]. injection Hf as <- <-. scalar_img KAll E.
+  - destruct (v_anchors c) as [[|e m]|] eqn:E; try discriminate. injection Hv as <-.
+    right. exists KAnchors, (YMap (e :: m)), p'. split; [cbn [v2_val]; rewrite E; reflexivity|].
+    split; [reflexivity | exact Hf].
+  - destruct (v_config c) eqn:E; [injection Hv as <- | discriminate].
+    destruct Hf as [Hf|[]]. injection Hf as <- <-. scalar_img KConfig E.
+  - destruct (v_dir c) eqn:E; [injection Hv as <- | discriminate].
+    destruct Hf as [Hf|[]]. injection Hf as <- <-. scalar_img KDir E.
+  - destruct (v_exclude c) as [[|e m]|] eqn:E; try discriminate. injection Hv as <-.
+    right. exists KExclude, (YList (map YStr (e :: m))), p'. split; [cbn [v2_val]; rewrite E; reflexivity|].
+    split; [reflexivity | exact Hf].
+  - destruct (v_exclude_regex c) eqn:E; [injection Hv as <- | discriminate].
+    destruct Hf as [Hf|[]]. injection Hf as <- <-. scalar_img KExcludeRegex E.
+  - destruct (v_include_regex c) eqn:E; [injection Hv as <- | discriminate].
+    destruct Hf as [Hf|[]]. injection Hf as <- <-. scalar_img KIncludeRegex E.
+  - destruct (v_log_level c) eqn:E; [injection Hv as <- | discriminate].
+    destruct Hf as [Hf|[]]. injection Hf as <- <-. scalar_img KLogLevel E.
+  - destruct (v_mockname c) eqn:E; [injection Hv as <- | discriminate].
+    destruct Hf as [Hf|[]]. injection Hf as <- <-. scalar_img KMockname E.
+  - destruct (v_outpkg c) eqn:E; [injection Hv as <- | discriminate].
+    destruct Hf as [Hf|[]]. injection Hf as <- <-. scalar_img KOutpkg E.
+  - destruct (v_recursive c) eqn:E; [injection Hv as <- | discriminate].
+    destruct Hf as [Hf|[]]. injection Hf as <- <-. scalar_img KRecursive E.
+  - destruct tpl as [s|]; [injection Hv as <- | discriminate].
+    destruct Hf as [Hf|[]]. injection Hf as <- <-. left. exists s. auto.
+  - unfold template_data in Hv. destruct (collapse (td_entries c)) as [|e m] eqn:E; [discriminate|].
+    injection Hv as <-. apply in_flatten_map in Hf as (k2 & x2 & p2 & Hin2 & -> & Hf2); [|exact Hs].
+    rewrite <- E in Hin2. apply in_collapse in Hin2. unfold td_entries in Hin2. cbn [In] in Hin2.
+    repeat (destruct Hin2 as [Hin2|Hin2]; [injection Hin2 as <- Hv2 | ]); try contradiction.
+    + destruct (v_boilerplate_file c) eqn:F; [injection Hv2 as <- | discriminate].
+      destruct Hf2 as [Hf2|[]]. injection Hf2 as <- <-.
+      scalar_img KBoilerplateFile F.
+    + destruct (v_mock_build_tags c) eqn:F; [injection Hv2 as <- | discriminate].
+      destruct Hf2 as [Hf2|[]]. injection Hf2 as <- <-.
+      scalar_img KMockBuildTags F.
+    + destruct (v_unroll_variadic c) eqn:F; [injection Hv2 as <- | discriminate].
+      destruct Hf2 as [Hf2|[]]. injection Hf2 as <- <-.
+      scalar_img KUnrollVariadic F.
+    + destruct (v_with_expecter c) eqn:F; [injection Hv2 as <- | discriminate].
+      destruct Hf2 as [Hf2|[]]. injection Hf2 as <- <-.
+      scalar_img KWithExpecter F.
+Qed.
+
+Lemma cfg_node_leaf c p v :
+  In (p, v) (flatten (mig_cfg_node c)) -> is_scalar v = true -> img c p v.
+Proof.
+  intros H Hs. unfold mig_cfg_node in H.
+  apply in_flatten_map in H as (k & x & p' & Hin & -> & Hf); [|exact Hs].
+  destruct (cfg_entry_leaf _ _ _ _ _ _ Hin Hf Hs) as [(s & E & _)|H]; [discriminate | exact H].
+Qed.
+
+Lemma in_map_entries {A} (f : A -> yv) k x (l : list (str * A)) :
+  In (k, x) (map (fun e => (fst e, f (snd e))) l) -> exists a, In (k, a) l /\ x = f a.
+Proof.
+  intros H. apply in_map_iff in H as [[k' a] [E Hin]]. simpl in E. injection E as <- <-. eauto.
+Qed.
+
+Lemma nothing_invented r out p v :
+  migrate r = MOk out -> In (p, v) (flatten out) -> is_scalar v = true ->
+  (p = [SK (B "template")] /\ v = YStr testify) \/
+  exists lv c rel, v2_at r lv = Some c /\ p = level_path lv ++ rel /\ img c rel v.
+Proof.
+  intros Hm Hin Hs. apply migrate_ok in Hm as [-> Hwf].
+  unfold wf_root in Hwf. apply andb_true_iff in Hwf as [Hnd Hall].
+  apply nodupb_NoDup in Hnd. rewrite forallb_forall in Hall.
+  unfold mig_root in Hin.
+  apply in_flatten_map in Hin as (k & x & p' & Hk & -> & Hf); [|exact Hs].
+  apply in_app_or in Hk as [Hk|Hk].
+  - (* top-level configuration *)
+    destruct (cfg_entry_leaf _ _ _ _ _ _ Hk Hf Hs) as [(s & E & -> & -> & ->)|H].
+    + injection E as <-. left. auto.
+    + right. exists LTop, (r_top r), (SK k :: p'). auto.
+  - destruct Hk as [Hk|[]]. injection Hk as <- <-.
+    apply in_flatten_map in Hf as (pn & px & p1 & Hp & -> & Hf); [|exact Hs].
+    apply in_map_entries in Hp as (pc & Hp & ->).
+    assert (Hpa : assoc pn (r_pkgs r) = Some pc) by (apply in_assoc; assumption).
+    assert (Hndi : NoDup (map fst (p_ifaces pc))) by (apply nodupb_NoDup; apply (Hall (pn, pc) Hp)).
+    unfold mig_pkg in Hf.
+    apply in_flatten_map in Hf as (k2 & x2 & p2 & Hk2 & -> & Hf); [|exact Hs].
+    apply in_collapse in Hk2. cbn [In] in Hk2.
+    repeat (destruct Hk2 as [Hk2|Hk2]; [injection Hk2 as <- Hv | ]); try contradiction.
+    + (* package config *)
+      destruct (p_config pc) as [c|] eqn:Ec; [injection Hv as <- | discriminate].
+      right. exists (LPkg pn), c, p2. split; [|split].
+      * cbn [v2_at]. rewrite Hpa. exact Ec.
+      * reflexivity.
+      * apply cfg_node_leaf; assumption.
+    + assert (Hx : x2 = YMap (map (fun e => (fst e, mig_iface (snd e))) (p_ifaces pc)))
+        by (destruct (p_ifaces pc); [discriminate | injection Hv as <-; reflexivity]).
+      subst x2. clear Hv.
+      apply in_flatten_map in Hf as (iname & ix & p3 & Hi & -> & Hf); [|exact Hs].
+      apply in_map_entries in Hi as (ic & Hi & ->).
+      assert (Hia : assoc iname (p_ifaces pc) = Some ic) by (apply in_assoc; assumption).
+      unfold mig_iface in Hf.
+      apply in_flatten_map in Hf as (k3 & x3 & p4 & Hk3 & -> & Hf); [|exact Hs].
+      apply in_collapse in Hk3. cbn [In] in Hk3.
+      repeat (destruct Hk3 as [Hk3|Hk3]; [injection Hk3 as <- Hv | ]); try contradiction.
+      * (* interface config *)
+        destruct (i_config ic) as [c|] eqn:Ec; [injection Hv as <- | discriminate].
+        right. exists (LIface pn iname), c, p4. split; [|split].
+        -- cbn [v2_at bind]. rewrite Hpa. cbn [bind]. rewrite Hia. exact Ec.
+        -- reflexivity.
+        -- apply cfg_node_leaf; assumption.
+      * (* configs entries *)
+        assert (Hx : x3 = YList (map mig_cfg_node (i_configs ic)))
+          by (destruct (i_configs ic); [discriminate | injection Hv as <-; reflexivity]).
+        subst x3. clear Hv.
+        apply in_flatten_list in Hf as (n & xn & p5 & Hn & -> & Hf); [|exact Hs].
+        rewrite nth_error_map in Hn.
+        destruct (nth_error (i_configs ic) n) as [c|] eqn:En; [|discriminate].
+        injection Hn as <-.
+        right. exists (LSub pn iname n), c, p5. split; [|split].
+        -- cbn [v2_at bind]. rewrite Hpa. cbn [bind]. rewrite Hia. exact En.
+        -- reflexivity.
+        -- apply cfg_node_leaf; assumption.
+Qed.
+
+(* ------------------------------------------------------------------ every decodable tree is migrated *)
+Lemma migrate_total r : wf_root r = true -> migrate r = MOk (mig_root r).
+Proof. unfold migrate. intros ->. reflexivity. Qed.
+
+(* ------------------------------------------------------------------ frame *)
+Section CmdFacts.
+  Variable parse : str -> option v2root.
+  Variable encode : yv -> str.
+  Variable writable : str -> bool.
+
+  Lemma run_frame f inp outp q :
+    q <> outp -> fst (run_cmd parse encode writable f inp outp) q = f q.
+  Proof.
+    intros Hq. unfold run_cmd.
+    destruct (f inp) as [b|]; [|reflexivity].
+    destruct (parse b) as [r|]; [|reflexivity].
+    destruct (migrate r); [|reflexivity].
+    destruct (writable outp); [|reflexivity].
+    cbn [fst]. unfold upd. apply seqb_neq in Hq. rewrite Hq. reflexivity.
+  Qed.
+
+  Lemma run_failure_frame f inp outp :
+    snd (run_cmd parse encode writable f inp outp) = ExitErr ->
+    fst (run_cmd parse encode writable f inp outp) = f.
+  Proof.
+    unfold run_cmd.
+    destruct (f inp) as [b|]; [|reflexivity].
+    destruct (parse b) as [r|]; [|reflexivity].
+    destruct (migrate r); [|reflexivity].
+    destruct (writable outp); [discriminate | reflexivity].
+  Qed.
+
+  Lemma run_success f inp outp :
+    snd (run_cmd parse encode writable f inp outp) = ExitOk ->
+    exists b r t, f inp = Some b /\ parse b = Some r /\ migrate r = MOk t /\
+                  fst (run_cmd parse encode writable f inp outp) outp = Some (encode t).
+  Proof.
+    unfold run_cmd.
+    destruct (f inp) as [b|] eqn:Eb; [|discriminate].
+    destruct (parse b) as [r|] eqn:Er; [|discriminate].
+    destruct (migrate r) as [t|] eqn:Et; [|discriminate].
+    destruct (writable outp); [|discriminate].
+    intros _. exists b, r, t. cbn [fst]. unfold upd. rewrite seqb_refl.
+    split; [reflexivity | split; [exact Er | split; [exact Et | reflexivity]]].
+  Qed.
+End CmdFacts.
+
+(* ------------------------------------------------------------------ unmapped keys have no influence *)
+Lemma obool_inj a b : obool a = obool b -> a = b.
+Proof. destruct a, b; simpl; congruence. Qed.
+Lemma ostr_inj a b : ostr a = ostr b -> a = b.
+Proof. destruct a, b; simpl; congruence. Qed.
+Lemma map_YStr_inj a b : map YStr a = map YStr b -> a = b.
+Proof.
+  revert b; induction a as [|x a IH]; destruct b as [|y b]; simpl; try congruence.
+  intros H. injection H as -> H. f_equal. apply IH; exact H.
+Qed.
+
+Lemma only_mapped_keys_matter c c' tpl :
+  (forall k, v2_val c k = v2_val c' k) -> mig_config c tpl = mig_config c' tpl.
+Proof.
+  intros H.
+  pose proof (obool_inj _ _ (H KAll)) as E1.
+  pose proof (ostr_inj _ _ (H KDir)) as E2.
+  pose proof (ostr_inj _ _ (H KMockname)) as E3.
+  pose proof (ostr_inj _ _ (H KOutpkg)) as E4.
+  pose proof (ostr_inj _ _ (H KIncludeRegex)) as E5.
+  pose proof (ostr_inj _ _ (H KExcludeRegex)) as E6.
+  pose proof (H KExclude) as E7. cbn [v2_val] in E7.
+  pose proof (obool_inj _ _ (H KRecursive)) as E8.
+  pose proof (ostr_inj _ _ (H KLogLevel)) as E9.
+  pose proof (ostr_inj _ _ (H KConfig)) as E10.
+  pose proof (H KAnchors) as E11. cbn [v2_val] in E11.
+  pose proof (ostr_inj _ _ (H KBoilerplateFile)) as E12.
+  pose proof (ostr_inj _ _ (H KMockBuildTags)) as E13.
+  pose proof (obool_inj _ _ (H KUnrollVariadic)) as E14.
+  pose proof (obool_inj _ _ (H KWithExpecter)) as E15.
+  assert (E7' : v_exclude c = v_exclude c').
+  { destruct (v_exclude c), (v_exclude c'); simpl in E7; try congruence.
+    injection E7 as E7. f_equal. apply map_YStr_inj; exact E7. }
+  assert (E11' : v_anchors c = v_anchors c').
+  { destruct (v_anchors c), (v_anchors c'); simpl in E11; congruence. }
+  unfold mig_config, cfg_entries, template_data, td_entries.
+  rewrite E1, E2, E3, E4, E5, E6, E7', E8, E9, E10, E11', E12, E13, E14, E15. reflexivity.
+Qed.
+
+(* ------------------------------------------------------------------ reading the written file back *)
+Section YvInd.
+  Variable P : yv -> Prop.
+  Hypothesis Hnull : P YNull.
+  Hypothesis Hbool : forall b, P (YBool b).
+  Hypothesis Hint : forall z, P (YInt z).
+  Hypothesis Hstr : forall s, P (YStr s).
+  Hypothesis Hlist : forall l, Forall P l -> P (YList l).
+  Hypothesis Hmap : forall m, Forall (fun e => P (snd e)) m -> P (YMap m).
+
+  Fixpoint yv_ind' (v : yv) : P v :=
+    match v with
+    | YNull => Hnull
+    | YBool b => Hbool b
+    | YInt z => Hint z
+    | YStr s => Hstr s
+    | YList l =>
+      Hlist l ((fix go (l : list yv) : Forall P l :=
+                  match l with
+                  | [] => @Forall_nil _ P
+                  | x :: t => @Forall_cons _ P x t (yv_ind' x) (go t)
+                  end) l)
+    | YMap m =>
+      Hmap m ((fix go (m : list (str * yv)) : Forall (fun e => P (snd e)) m :=
+                 match m with
+                 | [] => @Forall_nil _ (fun e => P (snd e))
+                 | e :: t => @Forall_cons _ (fun e => P (snd e)) e t (yv_ind' (snd e)) (go t)
+                 end) m)
+    end.
+End YvInd.
+
+Lemma existsb_false_inv {A} (f : A -> bool) l : existsb f l = false -> forall x, In x l -> f x = false.
+Proof.
+  intros H x Hin. destruct (f x) eqn:E; [|reflexivity].
+  assert (existsb f l = true) by (apply existsb_exists; eauto). congruence.
+Qed.
+
+Lemma seqb_sym a b : seqb a b = seqb b a.
+Proof.
+  destruct (seqb a b) eqn:E.
+  - apply seqb_eq in E; subst. symmetry; apply seqb_refl.
+  - apply seqb_neq in E. symmetry. apply seqb_neq. congruence.
+Qed.
+
+Lemma assoc_absent {A} k (m : list (str * A)) :
+  (forall e, In e m -> seqb (fst e) k = false) -> assoc k m = None.
+Proof.
+  induction m as [|[k' v] t IH]; simpl; intros H; [reflexivity|].
+  pose proof (H (k', v) (or_introl eq_refl)) as Hk. cbn [fst] in Hk.
+  rewrite seqb_sym, Hk. apply IH. intros e He. apply H. now right.
+Qed.
+
+Lemma reread_id v : has_merge_key v = false -> reread v = Some v.
+Proof.
+  induction v as [| | | |l IH|m IH] using yv_ind'; try reflexivity.
+  - intros H. cbn [has_merge_key] in H. pose proof (existsb_false_inv _ _ H) as Hx. clear H.
+    cbn [reread].
+    assert (E : all_some (map reread l) = Some l).
+    { induction l as [|x t IHt]; [reflexivity|].
+      inversion IH as [|? ? Hh Ht]; subst. cbn [map all_some].
+      rewrite Hh by (apply Hx; now left). rewrite IHt; [reflexivity | exact Ht |].
+      intros y Hy. apply Hx. now right. }
+    rewrite E. reflexivity.
+  - intros H. cbn [has_merge_key] in H. pose proof (existsb_false_inv _ _ H) as Hx. clear H.
+    cbn [reread].
+    assert (E : all_some (map (fun e => entry_opt (fst e, reread (snd e))) m) = Some m).
+    { induction m as [|[k x] t IHt]; [reflexivity|].
+      inversion IH as [|? ? Hh Ht]; subst. cbn [map all_some fst snd].
+      pose proof (Hx (k, x) (or_introl eq_refl)) as Hkx. cbn [fst snd] in Hkx.
+      apply orb_false_iff in Hkx as [_ Hkx]. cbn [snd] in Hh. rewrite (Hh Hkx).
+      unfold entry_opt at 1. cbn [fst snd option_map].
+      rewrite IHt; [reflexivity | exact Ht |]. intros y Hy. apply Hx. now right. }
+    rewrite E.
+    rewrite assoc_absent; [reflexivity|].
+    intros e He. apply Hx in He. apply orb_false_iff in He as [He _]. exact He.
+Qed.
+
+Lemma existsb_YStr l : existsb has_merge_key (map YStr l) = false.
+Proof. induction l; simpl; auto. Qed.
+
+Lemma cfg_no_merge c tpl :
+  cfg_merge_free c = true -> has_merge_key (YMap (mig_config c tpl)) = false.
+Proof.
+  intros Hg. cbn [has_merge_key]. unfold mig_config. apply existsb_collapse_false.
+  unfold cfg_entries. cbn [In fst snd]. intros k v H.
+  repeat (destruct H as [H|H]; [injection H as <- Hv | ]); try contradiction; try discriminate;
+    match goal with |- is_merge ?k || _ = false =>
+      let r := eval vm_compute in (is_merge k) in change (is_merge k) with r end; cbn [orb].
+  - destruct (v_all c); [injection Hv as <-; reflexivity | discriminate].
+  - unfold cfg_merge_free in Hg. destruct (v_anchors c) as [[|e m]|]; try discriminate.
+    injection Hv as <-. apply negb_true_iff in Hg. exact Hg.
+  - destruct (v_config c); [injection Hv as <-; reflexivity | discriminate].
+  - destruct (v_dir c); [injection Hv as <-; reflexivity | discriminate].
+  - destruct (v_exclude c) as [[|e m]|]; try discriminate. injection Hv as <-.
+    cbn [has_merge_key]. apply (existsb_YStr (e :: m)).
+  - destruct (v_exclude_regex c); [injection Hv as <-; reflexivity | discriminate].
+  - destruct (v_include_regex c); [injection Hv as <-; reflexivity | discriminate].
+  - destruct (v_log_level c); [injection Hv as <-; reflexivity | discriminate].
+  - destruct (v_mockname c); [injection Hv as <-; reflexivity | discriminate].
+  - destruct (v_outpkg c); [injection Hv as <-; reflexivity | discriminate].
+  - destruct (v_recursive c); [injection Hv as <-; reflexivity | discriminate].
+  - destruct tpl; [injection Hv as <-; reflexivity | discriminate].
+  - unfold template_data in Hv. destruct (collapse (td_entries c)) as [|e m] eqn:E; [discriminate|].
+    injection Hv as <-. rewrite <- E. cbn [has_merge_key]. apply existsb_collapse_false.
+    unfold td_entries. cbn [In fst snd]. intros k2 v2 H2.
+    repeat (destruct H2 as [H2|H2]; [injection H2 as <- Hv2 | ]); try contradiction;
+      match goal with |- is_merge ?k || _ = false =>
+        let r := eval vm_compute in (is_merge k) in change (is_merge k) with r end; cbn [orb].
+    + destruct (v_boilerplate_file c); [injection Hv2 as <-; reflexivity | discriminate].
+    + destruct (v_mock_build_tags c); [injection Hv2 as <-; reflexivity | discriminate].
+    + destruct (v_unroll_variadic c); [injection Hv2 as <-; reflexivity | discriminate].
+    + destruct (v_with_expecter c); [injection Hv2 as <-; reflexivity | discriminate].
+Qed.
+
+Lemma existsb_map_entries_false {A} (g : A -> yv) (l : list (str * A)) :
+  (forall e, In e l -> is_merge (fst e) = false /\ has_merge_key (g (snd e)) = false) ->
+  existsb (fun e => is_merge (fst e) || has_merge_key (snd e)) (map (fun e => (fst e, g (snd e))) l) = false.
+Proof.
+  intros H. apply existsb_false. intros x Hx. apply in_map_iff in Hx as [e [<- He]].
+  destruct (H e He) as [H1 H2]. cbn [fst snd]. rewrite H1, H2. reflexivity.
+Qed.
+
+Lemma iface_no_merge ic : iface_merge_free ic = true -> has_merge_key (mig_iface ic) = false.
+Proof.
+  unfold iface_merge_free. intros Hg. apply andb_true_iff in Hg as [Hc Hs].
+  unfold mig_iface. cbn [has_merge_key]. apply existsb_collapse_false. cbn [In fst snd]. intros k v H.
+  repeat (destruct H as [H|H]; [injection H as <- Hv | ]); try contradiction;
+    match goal with |- is_merge ?k || _ = false =>
+      let r := eval vm_compute in (is_merge k) in change (is_merge k) with r end; cbn [orb].
+  - destruct (i_config ic) as [c|]; [injection Hv as <- | discriminate]. apply cfg_no_merge. exact Hc.
+  - assert (Hx : v = YList (map mig_cfg_node (i_configs ic)))
+      by (destruct (i_configs ic); [discriminate | injection Hv as <-; reflexivity]).
+    subst v. cbn [has_merge_key]. apply existsb_false. intros x Hx.
+    apply in_map_iff in Hx as [c [<- Hc']]. apply cfg_no_merge.
+    rewrite forallb_forall in Hs. apply Hs; exact Hc'.
+Qed.
+
+Lemma pkg_no_merge pc : pkg_merge_free pc = true -> has_merge_key (mig_pkg pc) = false.
+Proof.
+  unfold pkg_merge_free. intros Hg. apply andb_true_iff in Hg as [Hc Hs].
+  unfold mig_pkg. cbn [has_merge_key]. apply existsb_collapse_false. cbn [In fst snd]. intros k v H.
+  repeat (destruct H as [H|H]; [injection H as <- Hv | ]); try contradiction;
+    match goal with |- is_merge ?k || _ = false =>
+      let r := eval vm_compute in (is_merge k) in change (is_merge k) with r end; cbn [orb].
+  - destruct (p_config pc) as [c|]; [injection Hv as <- | discriminate]. apply cfg_no_merge. exact Hc.
+  - assert (Hx : v = YMap (map (fun e => (fst e, mig_iface (snd e))) (p_ifaces pc)))
+      by (destruct (p_ifaces pc); [discriminate | injection Hv as <-; reflexivity]).
+    subst v. cbn [has_merge_key]. apply existsb_map_entries_false. intros e He.
+    rewrite forallb_forall in Hs. specialize (Hs e He). apply andb_true_iff in Hs as [H1 H2].
+    split; [apply negb_true_iff; exact H1 | apply iface_no_merge; exact H2].
+Qed.
+
+Lemma root_no_merge r : v2_merge_free r = true -> has_merge_key (mig_root r) = false.
+Proof.
+  unfold v2_merge_free. intros Hg. apply andb_true_iff in Hg as [Hc Hs].
+  unfold mig_root. cbn [has_merge_key]. rewrite existsb_app. apply orb_false_iff. split.
+  - apply (cfg_no_merge _ (Some testify)) in Hc. exact Hc.
+  - cbn [existsb fst snd]. rewrite orb_false_r.
+    change (is_merge kpackages) with false. cbn [orb has_merge_key].
+    apply existsb_map_entries_false. intros e He.
+    rewrite forallb_forall in Hs. specialize (Hs e He). apply andb_true_iff in Hs as [H1 H2].
+    split; [apply negb_true_iff; exact H1 | apply pkg_no_merge; exact H2].
+Qed.
+
+Lemma file_roundtrip r out :
+  v2_merge_free r = true -> migrate r = MOk out -> reread out = Some out.
+Proof.
+  intros Hg Hm. apply migrate_ok in Hm as [-> _]. apply reread_id, root_no_merge, Hg.
+Qed.
